@@ -994,6 +994,48 @@ impl Thread {
         }
     }
 
+    /// Verification hook: the object graph reachable from the roots a collection of this
+    /// thread's heap would use (this thread's stack and fields and the roots of all descendant
+    /// threads), as visitor events; nothing is marked or freed.
+    #[cfg(gluon_verif)]
+    pub fn verif_trace_roots(&self) -> Vec<crate::gc::verif::Event> {
+        let mut context = self.owned_context();
+        self.with_roots(&mut context, |gc, roots| unsafe {
+            crate::gc::verif::begin();
+            roots.trace(gc);
+            let locks = roots.mark_child_roots(gc);
+            drop(locks);
+            crate::gc::verif::end().events
+        })
+    }
+
+    /// Verification hook: generation and `(address, size, marked)` of the objects of this
+    /// thread's heap
+    #[cfg(gluon_verif)]
+    pub fn verif_heap(&self) -> (i32, Vec<(usize, usize, bool)>) {
+        let context = self.owned_context();
+        (context.gc.generation().verif_number(), context.gc.verif_objects())
+    }
+
+    /// Verification hook: the same for the global (generation 0) heap
+    #[cfg(gluon_verif)]
+    pub fn verif_global_heap(&self) -> Vec<(usize, usize, bool)> {
+        self.global_state.gc.lock().unwrap().verif_objects()
+    }
+
+    /// Verification hook: address of this thread object and its direct child threads
+    #[cfg(gluon_verif)]
+    pub fn verif_children(&self) -> (usize, Vec<RootedThread>) {
+        let children = self
+            .child_threads
+            .read()
+            .unwrap()
+            .iter()
+            .map(|(_, t)| t.root_thread())
+            .collect();
+        (self as *const Thread as usize, children)
+    }
+
     fn with_roots<F, R>(&self, context: &mut Context, f: F) -> R
     where
         F: for<'b> FnOnce(&mut Gc, Roots<'b>) -> R,
